@@ -209,9 +209,18 @@ def judge(seed, z_force=None):
                 return "weight is not interior/(interior+exterior+background)"
             if bg == 0.0 and not np.allclose(wab + wba, 1.0, atol=1e-5):
                 return "complementary weights do not sum to one"
-        w2 = StockholderWeight.from_arrays(els[:k], pos[:k], els[k:], pos[k:]).weights(pts)
-        if not np.allclose(w2, StockholderWeight(PromoleculeDensity((els[:k], pos[:k])), PromoleculeDensity((els[k:], pos[k:]))).weights(pts), rtol=1e-6):
-            return "StockholderWeight.from_arrays differs from the explicit construction"
+        for bg in (0.0, 1e-5, 1e-2):
+            w2 = StockholderWeight.from_arrays(els[:k], pos[:k], els[k:], pos[k:], background=bg).weights(pts)
+            if not np.allclose(w2, ra / (ra + rb + np.float32(bg)), rtol=rt):
+                return f"StockholderWeight.from_arrays(background={bg}) is not interior/(interior+exterior+background)"
+        # the value at a point does not depend on how many other points are evaluated in the same call
+        if seed % 4 == 0:
+            big = np.tile(pts, (70001 // len(pts) + 1, 1))[:70001]
+            rbig = PromoleculeDensity((els[:6], pos[:6])).rho(big)
+            rsmall = PromoleculeDensity((els[:6], pos[:6])).rho(pts)
+            if not np.allclose(rbig, np.tile(rsmall, 70001 // len(pts) + 1)[:70001], rtol=1e-6, atol=0):
+                bad = int(np.argmax(np.abs(rbig - np.tile(rsmall, 70001 // len(pts) + 1)[:70001])))
+                return f"density at a point depends on the size of the batch: point #{bad} of a 70001-point call gives {rbig[bad]} instead of {rsmall[bad % len(pts)]}"
     except Exception as ex:  # noqa
         return f"raised {type(ex).__name__}: {ex}"
     return None
